@@ -586,6 +586,21 @@ impl<
 {
 }
 
+// Accessors for verification harnesses (compiled only with --cfg sux_verif)
+#[cfg(sux_verif)]
+impl<B, I: AsRef<[usize]>, const LOG2_ONES_PER_INVENTORY: usize, const LOG2_U64_PER_SUBINVENTORY: usize>
+    SelectAdaptConst<B, I, LOG2_ONES_PER_INVENTORY, LOG2_U64_PER_SUBINVENTORY>
+{
+    /// Returns (inventory, spill).
+    pub fn verif_parts(&self) -> (&[usize], &[usize]) {
+        (self.inventory.as_ref(), self.spill.as_ref())
+    }
+    /// Returns the underlying bit vector.
+    pub fn verif_inner(&self) -> &B {
+        &self.bits
+    }
+}
+
 #[cfg(test)]
 mod tests {
     use std::collections::BTreeSet;
